@@ -50,6 +50,12 @@ def mutate(rng, s):
     return bytes(s)
 
 
+def facts(res, harness):
+    from . import regen
+    r = regen.gen_facts(harness)
+    return {"facts_regenerated_changed": r["facts_regenerated_changed"]}
+
+
 def gen(tier, rng, harness=None):
     lines = []
     n = 1500 if tier == "quick" else 120000
